@@ -182,6 +182,10 @@ def repeat_scopes_doc(rng):
     if rng.chance(1, 2):
         inner["o"] = tmpl("o") if named else 1      # the outer index is still visible by name inside the nested entry
     d = {"a_first": rng.pick([outer_ref, tmpl("a")]), "z_last": rng.pick([outer_ref, tmpl("z")])}
+    if rng.chance(1, 6):
+        d[outer_ref if not named else "$repeat:x"] = "key-is-the-index"      # a key that evaluates to a number: refused
+    if rng.chance(1, 4):
+        inner = {"$repeat": 2, "$value": None}                                # a nested body that evaluates to null: contributes nothing
     where = rng.below(3)
     if where == 0:
         d["m_list"] = [0, inner, rng.pick([outer_ref, 9])]
